@@ -215,6 +215,19 @@ static int run_fn() {
             ErrorDescriptor e;
             std::string kw = GetKeyword( in, ";( /\\", e );
             r << "ok len=" << kw.size() << " " << obs( in );
+        } else if( fn == "readheader" ) {
+            // ReadHeader on the bytes: ReadTokenSeparator, FindHeaderSection, the loop over the header instances
+            std::istringstream in( bytes );
+            InstMgr im; SF sf( reg, im );
+            sf.ReadHeader( in );
+            r << "ok " << obs( in );
+        } else if( fn == "append1" ) {
+            // pass 1 of AppendFile: without a file name the stream for the second pass cannot be opened
+            std::istringstream in( bytes );
+            InstMgr im; SF sf( reg, im );
+            sf.AppendFile( &in );
+            r << "ok cnt=" << im.InstanceCount() << " " << obs( in );
+            im.DeleteInstances();
         } else if( fn == "finddata" ) {
             std::istringstream in( bytes );
             InstMgr im; SF sf( reg, im );
